@@ -108,9 +108,23 @@ func (r *validationResponseHandler) HandleValidationResponse(
 			ccResp = ParseCCResponseDirectives(resp.Header)
 		}
 		ccRespOnce = true
-		if r.siep.CanStaleOnError(ctx.Freshness, ccResp) {
+		// RFC 5861 §4: stale-if-error is taken from the stored response or from
+		// the request (not from the error reply), and it does not override
+		// must-revalidate or no-cache (RFC 9111 §5.2.2.2, §5.2.2.4, §5.2.1.4).
+		ccStored := ParseCCResponseDirectives(ctx.Stored.Data.Header)
+		noCacheFieldsRaw, hasNoCache := ccStored.NoCache()
+		noCacheFields, noCacheQualified := noCacheFieldsRaw.Value()
+		mustValidate := ccStored.MustRevalidate() ||
+			(hasNoCache && !noCacheQualified) ||
+			ctx.CCReq.NoCache()
+		if !mustValidate && r.siep.CanStaleOnError(ctx.Freshness, ccStored, ctx.CCReq) {
 			// RFC 9111 §4.2.4 Serving Stale Responses
 			// RFC 9111 §4.3.3 Handling Validation Responses (5xx errors)
+			if noCacheQualified {
+				for field := range noCacheFields {
+					ctx.Stored.Data.Header.Del(field)
+				}
+			}
 			SetAgeHeader(ctx.Stored.Data, r.clock, ctx.Freshness.Age)
 			CacheStatusStale.ApplyTo(ctx.Stored.Data.Header)
 			r.l.LogCacheStaleIfError(req, ctx.URLKey, ctx.ToMisc(ccResp))
